@@ -10,6 +10,7 @@ mod cost;
 mod crash;
 mod e3;
 mod explore;
+mod naive;
 mod ops;
 mod post;
 mod probes;
@@ -71,7 +72,7 @@ fn worker(prop: &str, tier: Tier) -> i32 {
     let res = json!({
         "states": out.states, "transitions": out.transitions, "validated": out.validated,
         "samples": out.samples, "exhaustive": out.exhaustive, "layers": out.layers,
-        "distinct_outcomes": out.distinct_outcomes, "extra": Value::Object(out.extra),
+        "distinct_outcomes": out.distinct_outcomes, "extra": Value::Object(out.extra), "machinery_errors": out.machinery_errors,
         "wall_s": t0.elapsed().as_secs_f64(),
     });
     writeln!(l, "RESULT {}", res).unwrap();
@@ -101,8 +102,13 @@ fn load_known() -> Known {
     k
 }
 
+/// Where evidence/ and replays/ are written (default /verif; scratch evaluations override it).
+fn out_dir() -> String {
+    std::env::var("PQMC_OUT_DIR").unwrap_or_else(|_| "/verif".into())
+}
+
 fn write_replay(prop: &str, c: &Case) -> String {
-    let dir = "/verif/replays";
+    let dir = &format!("{}/replays", out_dir());
     let _ = std::fs::create_dir_all(dir);
     let body = serde_json::to_string_pretty(c).unwrap();
     let mut h: u64 = 0xcbf29ce484222325;
@@ -211,6 +217,12 @@ fn driver(prop: &str, tier: Tier) -> i32 {
     // evidence
     let wall = t0.elapsed().as_secs_f64();
     let r = result.unwrap_or_else(|| json!({}));
+    if let Some(errs) = r["machinery_errors"].as_array() {
+        for e in errs {
+            eprintln!("machinery error (no verdict): {}", e.as_str().unwrap_or(""));
+            machinery_error = true;
+        }
+    }
     let mut coverage = serde_json::Map::new();
     let states = r["states"].as_u64().unwrap_or(0);
     let transitions = r["transitions"].as_u64().unwrap_or(0);
@@ -244,8 +256,8 @@ fn driver(prop: &str, tier: Tier) -> i32 {
         "wall_s": wall,
         "violations": violations,
     });
-    let _ = std::fs::create_dir_all("/verif/evidence");
-    std::fs::write(format!("/verif/evidence/{prop}.json"), serde_json::to_string_pretty(&ev).unwrap()).unwrap();
+    let _ = std::fs::create_dir_all(format!("{}/evidence", out_dir()));
+    std::fs::write(format!("{}/evidence/{prop}.json", out_dir()), serde_json::to_string_pretty(&ev).unwrap()).unwrap();
     println!(
         "{prop} {tier_s}: states={states} transitions={transitions} violations={violations} known={} wall={wall:.1}s",
         known_seen.len()
